@@ -22,9 +22,13 @@ E5 single-fault damage):
   foreign   each accelerator file copied from every other fixture repository (ordered pairs).
   damage    every truncation / byte set to 00,FF,+1,-1 (thorough: / single-bit flip) of each file, each
             mutant evaluated inside the E6 sandbox (a killed or spinning worker is an observation).
-  mode      the battery is answered by a freshly opened Repo ("fresh"), and by a long-lived Repo object
+  mode      the battery is answered by a freshly opened Repo ("fresh"), by a long-lived Repo object
             that wrote the accelerators / answered the battery before another Repo object performed
-            the step ("live": in-memory copies of the accelerators).
+            the step ("live": in-memory copies of the accelerators), and — "live-first" — by forked
+            copies of that warmed-up process, one per query, so that every query in turn is the FIRST
+            thing the cached state is asked after the foreign step.
+  octopus   named histories with 2-3 octopus merges (5-6 commits) for the commit-graph writers.
+  twins     foreign files between repositories whose packs have the same names but other offsets.
 
 Oracle = the statement: the fixed query battery (object lookup, membership, iteration, parents,
 merge-base / fast-forward, walks, find_shallow / get_depth, graph-walker, MissingObjectFinder,
@@ -465,7 +469,8 @@ def _ans(fn):
     except (MemoryError, RecursionError) as e:
         return "!!" + type(e).__name__
     except Exception as e:
-        return "!" + type(e).__name__
+        n = type(e).__name__
+        return "!" + (n if n != "error" else type(e).__module__ + ".error")  # (zlib.error, struct.error, binascii.error ...)
 
 
 def battery(h: Hist, repo, families=None, extra_ids=(), only=None, list_only=False):
@@ -707,6 +712,8 @@ def _pred_detail(fam, pred, ref):
     from a two-parent merge in a commit-graph)."""
     if fam == "parents" and isinstance(ref, tuple):
         return pred + "@" + ("root", "single-parent", "merge", "octopus")[min(len(ref), 3)]
+    if fam in ("getitem", "get_raw") and isinstance(ref, tuple) and not pred.startswith("raises-"):
+        return "other-content"  # (type, checksum of the bytes) of another object / of garbage
     return pred
 
 
@@ -1108,7 +1115,7 @@ def run_live(h: Hist, path, config, step, acc=None):
 
 # families whose queries are cheap: in live-first mode EVERY single query of them gets to be the first one
 # after the foreign step; the expensive families are each started once as a whole
-FIRST_PER_QUERY = frozenset(("getitem", "contains", "get_raw", "iter", "parents", "get_depth", "graph_walker", "refs.as_dict",
+FIRST_PER_QUERY = frozenset(("contains", "iter", "parents", "get_depth", "graph_walker", "refs.as_dict",
                              "refs.keys", "refs.get", "refs.contains", "refs.read_ref", "get_peeled", "refs.get_peeled", "head"))
 
 
@@ -1377,7 +1384,9 @@ def _eval_configs(acc, h, layout, configs, steps, mode, work, refcache, standalo
 # --------------------------------------------------------------------------- one history (batch)
 
 QUICK_STEPS = ("commit", "pack", "repack", "pack-loose", "delref", "delref+gc", "retag", "retag+gc", "repack-excl", "deltag+gc")
-QUICK_LIVE_STEPS = ("commit", "pack", "repack", "delref+gc", "retag")
+QUICK_LIVE_STEPS = ("commit", "pack", "repack", "delref+gc", "retag", "retag+gc")
+LIVE_FIRST_STEPS = {True: ("pack", "delref+gc", "retag+gc"), False: ("commit", "pack", "repack", "delref+gc", "retag", "retag+gc")}
+LIVE_FIRST_LAYOUTS = {True: ("pack1", "pack2"), False: ("pack1", "pack2", "mixed")}
 MAIN_LAYOUTS = ("loose", "pack1", "pack2", "mixed")
 EXTRA_LAYOUTS = ("pack2o", "pack1-v1", "pack1-v3")
 DEFAULT = {"cg": "d", "midx": "d", "bitmap": "d", "prefs": "d"}
@@ -1392,7 +1401,7 @@ def all_subsets(variant_of):
     return out
 
 
-def plan_for(layout, tier, light=False):
+def plan_for(layout, tier, light=False, first=False):
     """[(mode, configs, steps)] for one layout.  quick and thorough enumerate the same structure;
     thorough adds the C-git / variant writers under every step and more members in the live mode.
     light (thorough, non-canonical n=4 numberings): all subsets fresh + default singles/full set stale."""
@@ -1423,6 +1432,10 @@ def plan_for(layout, tier, light=False):
         elif not light:
             lv_cfg = [()] + singles_d + [full_d, (("cg", "g"),), (("midx", "g"),), (("prefs", "g"),)]
             plan.append(("live", lv_cfg, [None] + list(QUICK_STEPS)))
+        # live-first: every query in turn is the FIRST one a warmed-up long-lived Repo is asked after the step
+        if first and layout in LIVE_FIRST_LAYOUTS[q]:
+            lf_cfg = [()] + singles_d + ([] if q else [(("prefs", "g"),), (("cg", "g"),), (("midx", "g"),)])
+            plan.append(("live-first", lf_cfg, list(LIVE_FIRST_STEPS[q])))
     else:
         cfgs = [(), (("midx", "d"),), (("bitmap", "d"),)] + ([] if q else [(("cg", "d"),), full_d])
         if not q and layout != "pack1-v3":  # (C git 2.39 cannot read a version-3 pack index at all)
@@ -1432,7 +1445,7 @@ def plan_for(layout, tier, light=False):
     return plan
 
 
-def eval_history(acc: Acc, dag, tier, layouts, light=False):
+def eval_history(acc: Acc, dag, tier, layouts, light=False, first=False):
     h = history(dag)
     work = fresh_dir("c14h")
     refcache = {}
@@ -1440,10 +1453,45 @@ def eval_history(acc: Acc, dag, tier, layouts, light=False):
         for layout in layouts:
             if not layout_applicable(h, layout):
                 continue
-            for mode, configs, steps in plan_for(layout, tier, light):
+            for mode, configs, steps in plan_for(layout, tier, light, first):
                 _eval_configs(acc, h, layout, configs, steps, mode, work, refcache)
         acc.count("history_tasks")
         acc.count("history_layouts", len([L for L in layouts if layout_applicable(h, L)]))
+    finally:
+        _SNAP.clear()
+        rmtree(work)
+
+
+# --------------------------------------------------------------------------- histories with several octopus merges
+
+# A commit-graph stores the parents of an octopus merge in a separate edge list; only the SECOND and later
+# octopus merges of one file have a non-zero position in it.  n<=4 histories cannot have two of them, so this
+# named family (5-6 commits, up to 4 parents) is evaluated for the commit-graph accelerator only, with the
+# graph families of the battery.
+OCTOPUS_SHAPES = (
+    ((), (), (), (0, 1, 2), (0, 1, 2)),  # three roots, two merges of all three
+    ((), (), (), (0, 1, 2), (3, 0, 1)),  # the second octopus has the first one as its first parent
+    ((), (), (), (), (0, 1, 2, 3), (1, 2, 3)),  # a 4-parent octopus and a 3-parent one (edge list not at 0 either way round)
+    ((), (), (), (0, 1, 2), (0, 1, 2), (3, 4, 0)),  # three octopus merges, the third merges the other two
+)
+CG_FAMILIES = ("parents", "can_ff", "merge_base", "walk", "find_shallow", "get_depth", "graph_walker", "reach_commits", "mof",
+               "iter", "contains", "refs")
+
+
+def eval_octopus(acc: Acc, dag, tier):
+    q = tier == "quick"
+    h = history(dag, families=CG_FAMILIES)
+    work = fresh_dir("c14o")
+    refcache = {}
+    cg = [(("cg", v),) for v in WRITERS["cg"]]
+    try:
+        for layout in (("pack1",) if q else ("loose", "pack1", "pack2")):
+            _eval_configs(acc, h, layout, [()] + cg, [None], "fresh", work, refcache)
+            _eval_configs(acc, h, layout, [(), (("cg", "d"),), (("cg", "g"),)], [None, "commit"] + ([] if q else ["delref+gc", "repack"]),
+                          "live", work, refcache)
+            _eval_configs(acc, h, layout, [(), (("cg", "d"),)] + ([] if q else [(("cg", "g"),), (("cg", "d-all"),)]),
+                          ["commit", "delref+gc"] + ([] if q else ["pack", "repack", "moveref+gc"]), "fresh", work, refcache)
+        acc.count("octopus_history_tasks")
     finally:
         _SNAP.clear()
         rmtree(work)
@@ -1821,8 +1869,10 @@ def work(task):
     os.dup2(devnull, 2)  # dulwich logs "Ignoring bitmap ..." warnings and ResourceWarnings to stderr
     try:
         if kind == "hist":
-            _, dag, tier, layouts, light = task
-            eval_history(acc, dag, tier, layouts, light)
+            _, dag, tier, layouts, light, first = task
+            eval_history(acc, dag, tier, layouts, light, first)
+        elif kind == "octopus":
+            eval_octopus(acc, task[1], task[2])
         elif kind == "foreign":
             for args in task[1]:
                 case_foreign(acc, *args)
@@ -1932,14 +1982,27 @@ def run(ctx):
                                "(all subsets fresh; default singles + full set under every step; no live mode)"
                                % (len(small), len(n4), len([1 for _, l in n4 if l])))
     tasks = []
+    nfirst = 0
     for d, light in [(d, False) for d in small] + n4:
+        # live-first (every query in turn first after the step): quick n<=3; thorough: all but the light plan
+        first = len(d) <= 3 if q else not light
+        nfirst += first
         if len(d) >= 3:
             # one task per layout so that the big histories spread over the workers
             for L in MAIN_LAYOUTS:
-                tasks.append(("hist", d, tier, (L,), light))
-            tasks.append(("hist", d, tier, EXTRA_LAYOUTS, light))
+                tasks.append(("hist", d, tier, (L,), light, first))
+            tasks.append(("hist", d, tier, EXTRA_LAYOUTS, light, False))
         else:
-            tasks.append(("hist", d, tier, MAIN_LAYOUTS + EXTRA_LAYOUTS, light))
+            tasks.append(("hist", d, tier, MAIN_LAYOUTS + EXTRA_LAYOUTS, light, first))
+    for d in OCTOPUS_SHAPES:
+        tasks.append(("octopus", d, tier))
+    bounds["live-first"] = ("%d histories x layouts %r x {none, each single%s} x steps %r: after the step every query of the cheap "
+                            "families and every expensive family in turn is the first thing the warmed-up long-lived Repo is asked "
+                            "(one forked copy of the process each)"
+                            % (nfirst, LIVE_FIRST_LAYOUTS[q], "" if q else ", prefs[g], cg[g], midx[g]", LIVE_FIRST_STEPS[q]))
+    bounds["octopus family"] = ("%d named histories with 2-3 octopus merges (5-6 commits, <=4 parents) x layouts %s x commit-graph "
+                                "writers %r fresh + live + stale (graph families of the battery)"
+                                % (len(OCTOPUS_SHAPES), "pack1" if q else "loose, pack1, pack2", WRITERS["cg"]))
     bounds["layouts"] = list(MAIN_LAYOUTS + EXTRA_LAYOUTS)
     bounds["accelerator subsets"] = (
         "fresh: all 15 non-empty subsets of {cg, midx, bitmap, packed-refs} by dulwich's writers + every writer variant alone %r "
@@ -1975,7 +2038,7 @@ def run(ctx):
     bounds["damage"] = {"mutants": dcount, "kinds": "every truncation + every byte set to 00/FF/+1/-1" + ("" if q else " + every single-bit flip"),
                         "window": "whole file except fan-out entries that are not adjacent to a used bucket boundary"}
 
-    tasks = sorted(tasks, key=lambda t: -len(t[1]))  # big histories first (load balance); order is seed-permuted below
+    tasks = sorted(tasks, key=lambda t: -len(t[1]) - (2 if t[0] == "octopus" else 0))  # big histories first (load balance)
     alltasks = ctx.order(tasks) if ctx.seed else tasks
     pmap_robust(alltasks, ctx.acc, ctx.jobs)
     ctx.acc.note("t_after_histories", round(ctx.elapsed(), 1))
@@ -2024,8 +2087,12 @@ def run(ctx):
                    "judged:cg+midx+bitmap+prefs:fresh", "judged:prefs:stale-refs", "judged:cg:stale-shrink",
                    "judged:midx:stale-relayout", "judged:bitmap:stale-grow", "judged:none@loose:stale-shrink",
                    "judged:none@pack1-v1:fresh", "judged:none@pack1-v3:fresh", "judged:none@pack2o:fresh",
-                   "judged:cg:fresh+live", "judged:midx:stale-shrink+live", "judged:prefs:stale-refs+live"]
+                   "judged:cg:fresh+live", "judged:midx:stale-shrink+live", "judged:prefs:stale-refs+live",
+                   "judged:prefs:stale-refs-repacked+live-first", "judged:midx:stale-shrink+live-first",
+                   "judged:cg:stale-grow+live-first", "first_query_forks", "octopus_history_tasks"]
     absent = [c for c in need_counts if not n_.get(c)]
+    if "foreign:twin-packs:same-names-different-offsets" not in classes:
+        absent.append("foreign:twin-packs:same-names-different-offsets")
     need = ["accel-loaded-by-fresh-repo:cg[d]", "accel-loaded-by-fresh-repo:cg[g]", "accel-loaded-by-fresh-repo:midx[d]",
             "accel-loaded-by-fresh-repo:midx[g]", "accel-loaded-by-fresh-repo:prefs[d]", "accel-loaded-by-fresh-repo:prefs[g]",
             "accel-loaded-by-fresh-repo:bitmap[d]", "accel-loaded-by-fresh-repo:bitmap[g]",
